@@ -24,12 +24,13 @@ RULE = ("histories over {load, convert collection, convert rule, init pipeline, 
         "; the user pipeline reads placeholder values from a file (filtered); history op: a second backend with backend options")
 RULE += '; round 4: registration histories of sigma.pipelines.base.Pipeline (decorated functions, inheriting classes): what a handle builds is independent of later registrations (Lean Model.Registry)'
 RULE += "; round 5: history op 'a backend of another text backend class is created and used'; probe with exists:false / cidr / startswith items"
+RULE += "; round 6: history op 'a single rule for the other output format' (second format with its own pipeline); a registered class inheriting from another"
 ASSUMPTIONS = [
     "fresh objects = a new pipeline from the same dict, a new backend instance of a new class object built from the same configuration, caches cleared",
     "observation through a finalize_query hook defined in the harness's backend subclass (state seen by the conversion) and a template post-processing item (state seen by the item)",
 ]
 OPS = ["load", "conv_coll_state", "conv_coll_plain", "conv_rule_state", "conv_rule_plain", "init", "share_init", "share_conv", "other_backend", "backend_option",
-       "parse_two_step", "validate", "other_class",
+       "parse_two_step", "validate", "other_class", "conv_rule_altfmt",
        "fail_pipeline", "fail_placeholder", "fail_value", "fail_missing", "fail_noteq"]
 
 PIPE = {"name": "user", "priority": 10, "transformations": [
@@ -75,8 +76,15 @@ def make_class(cased="none", **over):
 
     def finalize_query_default(self, rule, query, index, state):
         return f"{query} /conv:k={state.processing_state.get('k')},bk={state.processing_state.get('bk')}"
+    from collections import defaultdict
+    # a second output format with a pipeline of its own (marks field g): a single rule converted for it re-assembles the pipeline
+    alt = ProcessingPipeline.from_dict({"name": "altfmt", "priority": 90, "transformations": [
+        {"id": "altmark", "type": "field_name_suffix", "suffix": "_ALT", "field_name_conditions": [{"type": "include_fields", "fields": ["g"]}]}]})
     return type("HistB", (B,), {"backend_processing_pipeline": ProcessingPipeline.from_dict(__import__("copy").deepcopy(BACKEND_PIPE)),
-                                "finalize_query_default": finalize_query_default, "formats": {"default": "d"}})
+                                "finalize_query_default": finalize_query_default, "finalize_query_alt": finalize_query_default,
+                                "finalize_output_alt": lambda self, queries: list(queries),
+                                "output_format_processing_pipeline": defaultdict(ProcessingPipeline, alt=alt),
+                                "formats": {"default": "d", "alt": "a"}})
 
 
 def gen_cases(tier, seed, gen, effort):
@@ -134,7 +142,11 @@ def run_registry(case):
             elif op[0] == "instantiate":
                 c, d = op[1], op[2]
                 if c not in classes:
-                    classes[c] = type(f"K{c}", (Pipeline,), {"apply": (lambda d_: (lambda self: ProcessingPipeline(name=f"d{d_}")))(d)})
+                    # class 2 inherits from class 0 (a pipeline class refining another one): it is a class of its own all the same
+                    if c == 2 and 0 not in classes:
+                        classes[0] = type("K0", (Pipeline,), {"apply": (lambda self: ProcessingPipeline(name="d100"))})
+                    base = classes[0] if c == 2 else Pipeline
+                    classes[c] = type(f"K{c}", (base,), {"apply": (lambda d_: (lambda self: ProcessingPipeline(name=f"d{d_}")))(d)})
                 insts[c] = classes[c]()
                 outs.append(c)
             elif op[0] == "callFunc":
@@ -195,6 +207,7 @@ def run_history(case, fresh):
                 elif op == "conv_coll_plain": A.convert(coll("plain"))
                 elif op == "conv_rule_state": A.convert_rule(coll("state").rules[0])
                 elif op == "conv_rule_plain": A.convert_rule(coll("plain").rules[0])
+                elif op == "conv_rule_altfmt": A.convert_rule(coll("plain").rules[0], "alt")      # a single rule for the other output format
                 elif op == "parse_two_step":      # the public two-step API: the raw parse, post-processed by the caller (as validators and tools do)
                     for r in coll("state", "plain").rules:
                         for pc in r.detection.parsed_condition:
@@ -251,18 +264,20 @@ def sys_ops(case):
     ops = [["define", [100]], ["define", [1, 2, 3, 4, 5]]]
     npipes = 2
     a_last = None
+    fmt = None          # the output format the backend's last pipeline was assembled for (convert_rule re-assembles when another is asked for)
     for op in case["history"]:
         if op in ("conv_coll_state", "conv_coll_plain", "init") or op.startswith("fail_"):
-            ops.append(["add", 0, 1]); a_last = npipes; npipes += 1
-        elif op in ("conv_rule_state", "conv_rule_plain"):
-            if a_last is None:
-                ops.append(["add", 0, 1]); a_last = npipes; npipes += 1
+            ops.append(["add", 0, 1]); a_last = npipes; npipes += 1; fmt = "default"
+        elif op in ("conv_rule_state", "conv_rule_plain", "conv_rule_altfmt"):
+            want = "alt" if op == "conv_rule_altfmt" else "default"
+            if a_last is None or fmt != want:
+                ops.append(["add", 0, 1]); a_last = npipes; npipes += 1; fmt = want
         elif op in ("share_init", "share_conv"):
             ops.append(["add", 0, 1]); npipes += 1
         elif op in ("other_backend", "backend_option"):
             ops.append(["define", [11, 12, 13, 14, 15]]); other = npipes; npipes += 1
             ops.append(["add", 0, other]); npipes += 1
-    if case["probe"] == "convert" or a_last is None:
+    if case["probe"] == "convert" or a_last is None or fmt != "default":
         ops.append(["add", 0, 1]); a_last = npipes; npipes += 1
     return ops, a_last
 
